@@ -227,33 +227,81 @@ def _assigned_ids(node):
 
 
 def _is_pointer(n):
-    t = (n.get('type') or '')
-    return t.strip().endswith('*')
+    t = (n.get('type') or '').strip()
+    while True:     # top-level qualifiers of the pointer itself: `const std::byte *const`
+        for q in ('const', 'volatile', '__restrict'):
+            if t.endswith(q):
+                t = t[:-len(q)].rstrip()
+                break
+        else:
+            break
+    return t.endswith('*')
+
+
+def _block(n):
+    if n is None or not n.get('kind'):
+        return []
+    return children(n) if n.get('kind') == 'CompoundStmt' else [n]
+
+
+def _own_continue(stmt):
+    """Does stmt contain a `continue` of the loop it sits in (not of a nested loop)?"""
+    def rec(n):
+        for c in children(n):
+            k = c.get('kind')
+            if k == 'ContinueStmt':
+                return True
+            if k in ('ForStmt', 'WhileStmt', 'DoStmt', 'CXXForRangeStmt', 'LambdaExpr'):
+                continue
+            if rec(c):
+                return True
+        return False
+    return stmt.get('kind') == 'ContinueStmt' or rec(stmt)
+
+
+def _must(stmts, steps):
+    """Does every path through stmts that reaches the end of the loop body (falls off the end or
+    `continue`s) execute a statement for which steps(stmt) is true?  Structural must-analysis:
+    a sequence does when one of its unconditional statements does, an `if` when both arms do
+    or leave the loop; a `continue` met before the step is a path without it."""
+    for s in stmts:
+        k = s.get('kind')
+        if k == 'IfStmt':
+            c = [x for x in children(s)]
+            if s.get('hasInit') or s.get('hasVar'):
+                c = c[1:]
+            then = c[1] if len(c) > 1 else None
+            els = c[2] if len(c) > 2 else None
+            t = then is not None and (_must(_block(then), steps) or _leaves(then))
+            e = els is not None and (_must(_block(els), steps) or _leaves(els))
+            if t and e:
+                return True
+            if _own_continue(s):
+                return False
+            continue
+        if k == 'CompoundStmt':
+            if _must(children(s), steps):
+                return True
+            if _own_continue(s):
+                return False
+            continue
+        if k in ('ForStmt', 'WhileStmt', 'DoStmt', 'CXXForRangeStmt'):
+            continue
+        if k in ('SwitchStmt', 'CXXTryStmt'):
+            if _own_continue(s):
+                return False
+            continue
+        if k == 'ContinueStmt':
+            return False
+        if steps(s):
+            return True
+    return False
 
 
 def _must_advance(stmts, pid):
     """Does every path through stmts that completes normally advance the
-    cursor variable pid?  (structural must-analysis)"""
-    for s in stmts:
-        k = s.get('kind')
-        if k == 'IfStmt':
-            c = children(s)
-            then = c[1] if len(c) > 1 else None
-            els = c[2] if len(c) > 2 else None
-            t = _must_advance(children(then) if then.get('kind') == 'CompoundStmt' else [then], pid) or _leaves(then)
-            e = els is not None and (_must_advance(children(els) if els.get('kind') == 'CompoundStmt' else [els], pid) or _leaves(els))
-            if t and e:
-                return True
-            continue
-        if k == 'CompoundStmt':
-            if _must_advance(children(s), pid):
-                return True
-            continue
-        if k in ('ForStmt', 'WhileStmt', 'DoStmt', 'CXXForRangeStmt', 'SwitchStmt', 'CXXTryStmt'):
-            continue
-        if pid in _advances(s):
-            return True
-    return False
+    cursor variable pid?"""
+    return _must(stmts, lambda s: pid in _advances(s))
 
 
 def _leaves(n):
@@ -269,8 +317,20 @@ def _leaves(n):
     return False
 
 
+def _ref_id(n):
+    n = strip(n, explicit=True)
+    return (n.get('referencedDecl') or {}).get('id') if n.get('kind') == 'DeclRefExpr' else None
+
+
+def _call_takes(call, vid):
+    return any(_ref_id(z) == vid for z in children(call)[1:])
+
+
 def _advances(stmt):
-    """Pointer variables advanced by this (non-branching) statement."""
+    """Pointer variables advanced by this (non-branching) statement: ++p, p += n, and p
+    reassigned from a call that was given p (`std::tie(x, p) = decode(p)`, `p = decode(p, out)`,
+    `auto [x, q] = ...` is a new variable and not an advance): the decode helpers return their
+    argument advanced by what they read - D1 checks every one of those reads."""
     out = set()
     for x in walk(stmt):
         k = x.get('kind')
@@ -282,6 +342,20 @@ def _advances(stmt):
             l = strip(children(x)[0], explicit=True)
             if l.get('kind') == 'DeclRefExpr' and _is_pointer(l):
                 out.add(l['referencedDecl']['id'])
+        elif k == 'BinaryOperator' and x.get('opcode') == '=':
+            l = strip(children(x)[0], explicit=True)
+            r = strip(children(x)[1], explicit=True)
+            if l.get('kind') == 'DeclRefExpr' and _is_pointer(l):
+                vid = l['referencedDecl']['id']
+                if r.get('kind') == 'CallExpr' and _call_takes(r, vid):
+                    out.add(vid)
+                elif r.get('kind') == 'BinaryOperator' and r.get('opcode') == '+' and \
+                        _ref_id(children(r)[0]) == vid:
+                    out.add(vid)            # p = p + n
+                elif r.get('kind') == 'MemberExpr' and r.get('name') == 'second' and children(r):
+                    b = strip(children(r)[0], explicit=True)
+                    if b.get('kind') == 'CallExpr' and _call_takes(b, vid):
+                        out.add(vid)        # p = decode(p).second
         elif k == 'CXXOperatorCallExpr':
             c = children(x)
             op = (strip(c[0]).get('referencedDecl') or {}).get('name')
@@ -294,10 +368,136 @@ def _advances(stmt):
                         t = strip(a, explicit=True)
                         if t.get('kind') == 'DeclRefExpr' and _is_pointer(t) and rhs_calls:
                             # the same pointer must be the argument of the call
-                            args = [strip(z, explicit=True) for z in children(rhs_calls[0])[1:]]
-                            if any(z.get('kind') == 'DeclRefExpr' and z['referencedDecl']['id'] == t['referencedDecl']['id'] for z in args):
+                            if _call_takes(rhs_calls[0], t['referencedDecl']['id']):
                                 out.add(t['referencedDecl']['id'])
     return out
+
+
+def _int_steps(stmt, vid):
+    """Steps of the integer variable vid made by this statement: list of +1 / -1 (direction) for
+    ++v, v++, v += c, v = v + c (c a positive literal) and the decreasing forms; None in the
+    list for any other write to vid."""
+    from ..program import literal_value
+    out = []
+    for x in walk(stmt):
+        k = x.get('kind')
+        if k == 'UnaryOperator' and x.get('opcode') in ('++', '--'):
+            if _ref_id(children(x)[0]) == vid:
+                out.append(1 if x['opcode'] == '++' else -1)
+        elif k == 'CompoundAssignOperator' and _ref_id(children(x)[0]) == vid:
+            c = literal_value(children(x)[1])
+            if x.get('opcode') in ('+=', '-=') and isinstance(c, int) and not isinstance(c, bool) and c > 0:
+                out.append(1 if x['opcode'] == '+=' else -1)
+            else:
+                out.append(None)
+        elif k == 'BinaryOperator' and x.get('opcode') == '=' and _ref_id(children(x)[0]) == vid:
+            r = strip(children(x)[1], explicit=True)
+            c = literal_value(children(r)[1]) if r.get('kind') == 'BinaryOperator' and len(children(r)) == 2 else None
+            if r.get('kind') == 'BinaryOperator' and r.get('opcode') in ('+', '-') and \
+                    _ref_id(children(r)[0]) == vid and isinstance(c, int) and not isinstance(c, bool) and c > 0:
+                out.append(1 if r['opcode'] == '+' else -1)
+            else:
+                out.append(None)
+        elif k == 'CallExpr' and _callee_name(x) == 'tie':
+            if any(_ref_id(a) == vid for a in children(x)[1:]):
+                out.append(None)
+    return out
+
+
+GROW = ('push_back', 'emplace_back', 'insert', 'resize', 'append', 'emplace', 'push_front')
+
+
+def _grown_roots(node):
+    """ids of the variables on which the node calls a growing container method"""
+    out = set()
+    for x in walk(node):
+        if x.get('kind') == 'CXXMemberCallExpr':
+            callee = strip(children(x)[0])
+            if callee.get('name') in GROW and children(callee):
+                r = strip(children(callee)[0], explicit=True)
+                while r.get('kind') == 'MemberExpr' and children(r):
+                    r = strip(children(r)[0], explicit=True)
+                if r.get('kind') == 'DeclRefExpr':
+                    out.add(r['referencedDecl']['id'])
+    return out
+
+
+def _counted(f, cond, inc, body):
+    """`v op bound` with an integer variable v stepped towards the bound on every path round the
+    loop (in the increment expression, or in the body on every continuing path), never written
+    otherwise, and a bound the loop does not change.  -> 'ok: ...' or None."""
+    cn = strip(cond, explicit=True)
+    if cn.get('kind') != 'BinaryOperator' or cn.get('opcode') not in ('<', '<=', '!=', '>', '>='):
+        return None
+    cc = children(cn)
+    for side in (0, 1):
+        vid = _ref_id(cc[side])
+        v = strip(cc[side], explicit=True)
+        if vid is None or _is_pointer(v):
+            continue
+        op = cn['opcode']
+        if side == 1:
+            op = {'<': '>', '<=': '>=', '>': '<', '>=': '<=', '!=': '!='}[op]
+        bound = cc[1 - side]
+        want = {'<': (1,), '<=': (1,), '>': (-1,), '>=': (-1,), '!=': (1, -1)}[op]
+        rounds = [body] + ([inc] if inc is not None and inc.get('kind') else [])
+        writes = []
+        for r in rounds + [cond]:
+            writes += _int_steps(r, vid)
+        if not writes or None in writes or len(set(writes)) != 1 or writes[0] not in want:
+            continue
+        direction = writes[0]
+        stepped = (inc is not None and inc.get('kind') and _int_steps(inc, vid)) or \
+            _int_steps(cond, vid) or _must(_block(body), lambda s: bool(_int_steps(s, vid)))
+        if not stepped:
+            continue
+        assigned = set()
+        for r in rounds:
+            assigned |= _assigned_ids(r)
+        bound_ids = set((x.get('referencedDecl') or {}).get('id') for x in walk(bound) if x.get('kind') == 'DeclRefExpr')
+        grown = set()
+        for r in rounds:
+            grown |= _grown_roots(r)
+        if bound_ids & (assigned | grown):
+            continue
+        if all(x.get('kind') != 'DeclRefExpr' for x in walk(bound)):
+            return 'ok: counted loop with a constant bound'
+        # wire-derived bound: the body consumes input so that the iteration count is bounded by the buffer
+        ptrs = [p['id'] for p in f.params if _is_pointer(p)] + \
+               [x['id'] for x in walk(f.body) if x.get('kind') == 'VarDecl' and _is_pointer(x)]
+        if any(_must_advance(_block(body), p) for p in ptrs):
+            return 'ok: counted loop, induction variable and bound unmodified, cursor advanced on every path'
+        if not ptrs:
+            return 'ok: counted loop without a cursor (bound is a container size)'
+        return 'ok: counted loop, induction variable and bound unmodified'
+    return None
+
+
+def _cursor(f, cond, inc, body):
+    """The condition relates two pointers (`p != end`, `p < end`, `end - p >= k`): the one the loop
+    writes is the cursor and must advance on every path round the loop; the other is the limit and
+    must not be written.  -> 'ok: ...', a reason, or None when the condition is not of this kind."""
+    ids = []
+    for x in walk(cond):
+        if x.get('kind') == 'DeclRefExpr' and _is_pointer(x) and \
+                (x.get('referencedDecl') or {}).get('kind') in ('VarDecl', 'ParmVarDecl'):
+            i = x['referencedDecl']['id']
+            if i not in ids:
+                ids.append(i)
+    if len(ids) != 2:
+        return None
+    rounds = [body] + ([inc] if inc is not None and inc.get('kind') else [])
+    assigned = set()
+    for r in rounds:
+        assigned |= _assigned_ids(r)
+    moving = [i for i in ids if i in assigned]
+    if len(moving) != 1:
+        return 'cursor loop in which %s of the two pointers of the condition is written' % (
+            'neither' if not moving else 'each')
+    pid = moving[0]
+    if (inc is not None and inc.get('kind') and pid in _advances(inc)) or _must_advance(_block(body), pid):
+        return 'ok: cursor loop, the cursor advances on every continuing path'
+    return 'cursor loop whose body does not advance the cursor on every path'
 
 
 def _loop_progress(prog, f, n):
@@ -324,50 +524,27 @@ def _loop_progress(prog, f, n):
     if k == 'ForStmt':
         inner = inner + [{}] * (5 - len(inner))
         init, _, cond, inc, body = inner[:5]
-        if not cond.get('kind'):
-            return 'for loop without a condition'
-        cn = strip(cond)
-        if cn.get('kind') == 'BinaryOperator' and cn.get('opcode') in ('<', '<=', '!='):
-            cc = children(cn)
-            iv = strip(cc[0], explicit=True)
-            if iv.get('kind') == 'DeclRefExpr' and inc.get('kind'):
-                iid = iv['referencedDecl']['id']
-                i2 = strip(inc)
-                inc_ok = i2.get('kind') == 'UnaryOperator' and i2.get('opcode') == '++' and \
-                    strip(children(i2)[0], explicit=True).get('referencedDecl', {}).get('id') == iid
-                body_assigned = _assigned_ids(body)
-                bound_ids = set((x.get('referencedDecl') or {}).get('id') for x in walk(cc[1]) if x.get('kind') == 'DeclRefExpr')
-                if inc_ok and iid not in body_assigned and not (bound_ids & body_assigned):
-                    # wire-derived bound: the body must consume input so that the
-                    # iteration count is bounded by the buffer
-                    lit = all(x.get('kind') != 'DeclRefExpr' for x in walk(cc[1]))
-                    if lit:
-                        return 'ok: counted loop with a constant bound'
-                    ptrs = [p['id'] for p in f.params if _is_pointer(p)] + \
-                           [x['id'] for x in walk(f.body) if x.get('kind') == 'VarDecl' and _is_pointer(x)]
-                    stmts = children(body) if body.get('kind') == 'CompoundStmt' else [body]
-                    if any(_must_advance(stmts, p) for p in ptrs):
-                        return 'ok: counted loop, induction variable and bound unmodified, cursor advanced on every path'
-                    if not ptrs:
-                        return 'ok: counted loop without a cursor (bound is a container size)'
-                    # bound is a container size (result.size()) or a guarded count
-                    return 'ok: counted loop, induction variable and bound unmodified'
-        return 'for loop is not of the counted form (i < bound; ++i) with unmodified i and bound'
-    if k == 'WhileStmt':
+        what = 'for loop'
+    elif k == 'WhileStmt':
         c = children(n)
-        cond, body = c[0], c[-1]
-        cn = strip(cond)
-        ids = [x for x in walk(cn) if x.get('kind') == 'DeclRefExpr' and _is_pointer(x)]
-        if cn.get('kind') == 'BinaryOperator' and cn.get('opcode') in ('!=', '<') and len(ids) == 2:
-            pid = ids[0]['referencedDecl']['id']
-            stmts = children(body) if body.get('kind') == 'CompoundStmt' else [body]
-            if _must_advance(stmts, pid):
-                return 'ok: cursor loop, the cursor advances on every continuing path'
-            return 'cursor loop whose body does not advance the cursor on every path'
-        return 'while loop of an unrecognised form'
-    if k == 'DoStmt':
-        return 'do-while loop outside the decompressor'
-    return 'unrecognised loop'
+        cond, inc, body = c[0], None, c[-1]
+        what = 'while loop'
+    elif k == 'DoStmt':
+        c = children(n)
+        cond, inc, body = c[1], None, c[0]
+        what = 'do-while loop'
+    else:
+        return 'unrecognised loop'
+    if not cond.get('kind'):
+        return '%s without a condition' % what
+    r = _counted(f, cond, inc, body)
+    if r is not None:
+        return r
+    r = _cursor(f, cond, inc, body)
+    if r is not None:
+        return r
+    return '%s is neither counted (an integer stepped towards a bound that the loop leaves alone) ' \
+           'nor a cursor loop (a pointer advanced towards a limit on every path)' % what
 
 
 def _same_ref(a, b):
@@ -383,25 +560,7 @@ Z_CODES = {'Z_OK': 0, 'Z_STREAM_END': 1, 'Z_NEED_DICT': 2, 'Z_ERRNO': -1, 'Z_STR
 def _zlib_status(prog, chk, D5, zu):
     """Evaluate one round of the decompression loop with the input exhausted
     (ptr == end, so avail_in = 0) for every inflate status code."""
-    outer = [n for n in children(zu.body) if n.get('kind') in ('DoStmt', 'WhileStmt', 'ForStmt')]
-    if len(outer) != 1:
-        raise AnalysisBroken('zlib_uncompress: expected one top-level loop, found %d' % len(outer))
-    outer = outer[0]
-    if outer['kind'] == 'DoStmt':
-        obody, ocond = children(outer)[0], children(outer)[1]
-    elif outer['kind'] == 'WhileStmt':
-        ocond, obody = children(outer)[0], children(outer)[-1]
-    else:
-        raise AnalysisBroken('zlib_uncompress: outer loop form not modelled')
-    # variables
-    vars_ = {x.get('name'): x for x in walk(zu.body) if x.get('kind') == 'VarDecl'}
-    for need in ('ptr', 'end', 'ret'):
-        if need not in vars_:
-            raise AnalysisBroken('zlib_uncompress: variable %s not found' % need)
-    strm = [x for x in walk(zu.body) if x.get('kind') == 'VarDecl' and 'z_stream' in (x.get('type') or '')]
-    if len(strm) != 1:
-        raise AnalysisBroken('zlib_uncompress: z_stream variable not found')
-    sid = strm[0]['id']
+    obody, ocond, vars_, sid, outer = zlib_loop(prog, zu)
     inflate_calls = [x for x in walk(obody) if x.get('kind') == 'CallExpr'
                      and (strip(children(x)[0]).get('referencedDecl') or {}).get('name') == 'inflate']
     if len(inflate_calls) != 1:
@@ -474,26 +633,146 @@ def _zlib_status(prog, chk, D5, zu):
                           'inflate status %s does not end in an exception (outcomes %s)' % (cname, sorted(res)))
 
 
-def zlib_loop(prog, zu):
-    """(obody, ocond, vars_, sid, outer) of the decompression loop, as _zlib_status finds them."""
-    outer = [n for n in children(zu.body) if n.get('kind') in ('DoStmt', 'WhileStmt', 'ForStmt')]
+def outer_loop(fn, api):
+    """The outermost loop of fn that contains the call of `api`, wherever it is nested (a block,
+    a try statement): -> (loop body, loop condition or None, loop node)."""
+    LOOPS = ('DoStmt', 'WhileStmt', 'ForStmt')
+
+    def has_call(n):
+        return any(x.get('kind') == 'CallExpr' and _callee_name(x) == api for x in walk(n))
+
+    def find(n):
+        out = []
+        for c in children(n):
+            if c.get('kind') in LOOPS and has_call(c):
+                out.append(c)
+            elif c.get('kind') != 'LambdaExpr':
+                out += find(c)
+        return out
+    outer = find(fn.body)
     if len(outer) != 1:
-        raise AnalysisBroken('zlib_uncompress: expected one top-level loop, found %d' % len(outer))
+        raise AnalysisBroken('%s: expected one loop around %s(), found %d' % (fn.name, api, len(outer)))
     outer = outer[0]
     if outer['kind'] == 'DoStmt':
         obody, ocond = children(outer)[0], children(outer)[1]
     elif outer['kind'] == 'WhileStmt':
         ocond, obody = children(outer)[0], children(outer)[-1]
     else:
-        raise AnalysisBroken('zlib_uncompress: outer loop form not modelled')
-    vars_ = {x.get('name'): x for x in walk(zu.body) if x.get('kind') == 'VarDecl'}
-    for need in ('ptr', 'end', 'ret'):
-        if need not in vars_:
-            raise AnalysisBroken('zlib_uncompress: variable %s not found' % need)
+        inner = outer.get('inner', [])
+        inner = inner + [{}] * (5 - len(inner))
+        init, condvar, cond, inc, obody = inner[:5]
+        if inc.get('kind') or condvar.get('kind'):
+            raise AnalysisBroken('%s: for loop with an increment around %s() is not modelled' % (fn.name, api))
+        ocond = cond if cond.get('kind') else None      # for (;;): left only from inside
+    return obody, ocond, outer
+
+
+def zlib_loop(prog, zu):
+    """(obody, ocond, vars_, sid, outer) of the decompression loop."""
+    obody, ocond, outer = outer_loop(zu, 'inflate')
     strm = [x for x in walk(zu.body) if x.get('kind') == 'VarDecl' and 'z_stream' in (x.get('type') or '')]
     if len(strm) != 1:
         raise AnalysisBroken('zlib_uncompress: z_stream variable not found')
+    vars_ = zlib_roles(zu, obody, strm[0]['id'], 'inflate')
     return obody, ocond, vars_, strm[0]['id'], outer
+
+
+def _callee_name(x):
+    c = children(x)
+    return (strip(c[0]).get('referencedDecl') or {}).get('name') if c else None
+
+
+def zlib_roles(fn, obody, sid, api, need_ret=True):
+    """The locals of a (de)compression loop, found by what they do, not by what they are called:
+
+    ret  the variable that receives the value of the `api` call (inflate / deflate) in the loop;
+    ptr  the input cursor: the pointer local from which `strm.next_in` is computed;
+    end  the input limit: the other pointer local from which `strm.avail_in` is computed
+         (`end - ptr`, possibly through a named local, a ternary or std::min).
+
+    -> {'ptr': decl, 'end': decl, 'ret': decl} (the VarDecl / ParmVarDecl nodes)."""
+    decls = {p['id']: p for p in fn.params}
+    defs = {}           # local id -> expressions it is computed from
+    for x in walk(fn.body):
+        k = x.get('kind')
+        if k == 'VarDecl':
+            decls[x['id']] = x
+            init = [y for y in children(x) if not y['kind'].endswith('Attr')]
+            if init:
+                defs.setdefault(x['id'], []).append(init[-1])
+        elif k in ('BinaryOperator', 'CompoundAssignOperator') and (x.get('opcode') or '').endswith('=') \
+                and x.get('opcode') not in ('==', '!=', '<=', '>='):
+            l = strip(children(x)[0], explicit=True)
+            if l.get('kind') == 'DeclRefExpr':
+                defs.setdefault(l['referencedDecl']['id'], []).append(children(x)[1])
+
+    def pointer_roots(expr):
+        """ids of the pointer locals / parameters expr is computed from, through non-pointer locals"""
+        out, seen, todo = [], set(), [expr]
+        while todo:
+            e = todo.pop()
+            for y in walk(e):
+                if y.get('kind') != 'DeclRefExpr':
+                    continue
+                i = (y.get('referencedDecl') or {}).get('id')
+                if i not in decls or i == sid:
+                    continue
+                if _is_pointer(decls[i]):
+                    if i not in out:
+                        out.append(i)
+                elif i not in seen:
+                    seen.add(i)
+                    todo.extend(defs.get(i, []))
+        return out
+
+    def member_stores(name):
+        res = []
+        for x in walk(obody):
+            if x.get('kind') == 'BinaryOperator' and x.get('opcode') == '=':
+                l = strip(children(x)[0])
+                if l.get('kind') == 'MemberExpr' and l.get('name') == name and children(l):
+                    b = strip(children(l)[0])
+                    if b.get('kind') == 'DeclRefExpr' and (b.get('referencedDecl') or {}).get('id') == sid:
+                        res.append(children(x)[1])
+        return res
+
+    what = '%s: ' % fn.name
+    # ret
+    rets = []
+    for x in walk(obody):
+        k = x.get('kind')
+        if k == 'BinaryOperator' and x.get('opcode') == '=':
+            r = strip(children(x)[1], explicit=True)
+            l = strip(children(x)[0], explicit=True)
+            if r.get('kind') == 'CallExpr' and _callee_name(r) == api and l.get('kind') == 'DeclRefExpr':
+                rets.append(l['referencedDecl']['id'])
+        elif k == 'VarDecl':
+            init = [y for y in children(x) if not y['kind'].endswith('Attr')]
+            if init:
+                r = strip(init[-1], explicit=True)
+                if r.get('kind') == 'CallExpr' and _callee_name(r) == api:
+                    rets.append(x['id'])
+    if need_ret and (len(set(rets)) != 1 or rets[0] not in decls):
+        raise AnalysisBroken(what + 'the variable receiving the status of %s() was not found' % api)
+    # ptr
+    nxt = member_stores('next_in')
+    proots = []
+    for e in nxt:
+        for i in pointer_roots(e):
+            if i not in proots:
+                proots.append(i)
+    if len(proots) != 1:
+        raise AnalysisBroken(what + 'the input cursor (pointer stored to next_in in the loop) was not found')
+    # end
+    eroots = []
+    for e in member_stores('avail_in'):
+        for i in pointer_roots(e):
+            if i != proots[0] and i not in eroots:
+                eroots.append(i)
+    if len(eroots) != 1:
+        raise AnalysisBroken(what + 'the input limit (pointer from which avail_in is computed) was not found')
+    return {'ptr': decls[proots[0]], 'end': decls[eroots[0]],
+            'ret': decls[rets[0]] if len(set(rets)) == 1 and rets[0] in decls else None}
 
 
 def benign_buf_error(prog, chk, rid, zu, obody, ocond, vars_, sid, outer):
@@ -559,6 +838,8 @@ def _zlib_round(prog, zu, obody, ocond, vars_, sid, code, more_output, exhausted
 
 
 def _cond(ev, ocond, env):
+    if ocond is None or not ocond.get('kind'):
+        return 'continues'          # for (;;)
     v = ev.ev(ocond, env)
     from ..feval import UNKNOWN, Choice
     if v is UNKNOWN or isinstance(v, Choice):
@@ -591,6 +872,15 @@ def _patch(ev, sid, code, more_output):
                 return 0
             if nm == 'inflateEnd':
                 return 0
+            if nm in ('min', 'max') and len(children(x)) == 3:
+                # std::min(a, b) / std::max(a, b): the value of the ternary it abbreviates
+                a, b = (ev.ev(y, env) for y in children(x)[1:])
+                if isinstance(a, int) and isinstance(b, int):
+                    return min(a, b) if nm == 'min' else max(a, b)
+                return UNKNOWN
+        if x.get('kind') == 'InitListExpr' and len(children(x)) == 1 and \
+                (absint.type_range(x.get('type')) or absint.type_range(x.get('dtype'))):
+            return ev.ev(children(x)[0], env)      # braced scalar `std::ptrdiff_t{n}`
         if x.get('kind') == 'MemberExpr':
             c = children(x)
             b = strip(c[0]) if c else {}
@@ -599,9 +889,128 @@ def _patch(ev, sid, code, more_output):
         return base_ev(n, env)
     ev.ev = ev2
 
+    def repo_helper(call):
+        """The repository function (with a body of its own) a call expression names, or None."""
+        if call.get('kind') != 'CallExpr' or getattr(ev, '_helper_depth', 0) >= 3:
+            return None
+        d, qn, virt, recv = ev.prog.resolve_callee(ev.tu, call)
+        if not qn:
+            return None
+        gs = [g for g in ev.prog.by_name(qn) if g.body is not None and not g.is_pattern
+              and ev.prog.in_repo(g.file)]
+        if len(gs) != 1 or len(gs[0].params) != len(children(call)) - 1:
+            return None
+        return gs[0]
+
+    def call_helper(call, g, env, trace):
+        """Part of the loop moved into a function of its own (status handling, feeding the next
+        slice): the body is executed in place with the arguments bound.  Objects passed by
+        reference / address (the z_stream, the status variable) are the caller's objects: their
+        members and values are copied in and written back.  -> (throw outcome | None, caller env,
+        returned value)"""
+        from ..feval import Evaluator
+        args = children(call)[1:]
+        env2 = {k_: v_ for k_, v_ in env.items() if isinstance(k_, tuple)}
+        shared = []                 # (parameter id, caller variable id, written back?)
+        sid2 = sid
+        for prm, a in zip(g.params, args):
+            env2[prm['id']] = ev.ev(a, env)
+            t = strip(a, explicit=True)
+            if t.get('kind') == 'UnaryOperator' and t.get('opcode') == '&':
+                t = strip(children(t)[0], explicit=True)
+            if t.get('kind') != 'DeclRefExpr':
+                continue
+            aid = (t.get('referencedDecl') or {}).get('id')
+            pt = prm.get('type') or ''
+            byref = '&' in pt or pt.rstrip().endswith('*')
+            for k_, v_ in list(env.items()):
+                if isinstance(k_, tuple) and len(k_) == 3 and k_[0] == 'member' and k_[1] == aid:
+                    env2[('member', prm['id'], k_[2])] = v_
+            if byref:
+                shared.append((prm['id'], aid, '&' in pt and 'const' not in pt.split('&')[0]))
+                if aid == sid:
+                    sid2 = prm['id']
+        sub = Evaluator(ev.prog, g, ev.call_hook, ev.max_paths)
+        sub.inner_cond = ev.inner_cond
+        sub.in_left = ev.in_left
+        if hasattr(ev, 'deflate_calls'):
+            sub.deflate_calls = ev.deflate_calls
+        sub._helper_depth = getattr(ev, '_helper_depth', 0) + 1
+        _patch(sub, sid2, code, more_output)
+        for st, e in sub.exec(g.body, env2, trace + (('call', g.qualname),)):
+            back = dict(env)
+            for pid_, aid, scalar in shared:
+                for k_, v_ in e.items():
+                    if isinstance(k_, tuple) and len(k_) == 3 and k_[0] == 'member' and k_[1] == pid_:
+                        back[('member', aid, k_[2])] = v_
+                if scalar and pid_ in e and aid in env:
+                    back[aid] = e[pid_]
+            if st is not None and st.kind == 'throw':
+                yield st, back, None
+            elif st is not None and st.kind == 'return':
+                yield None, back, st.value
+            else:
+                yield None, back, None
+        ev.unsupported.extend(sub.unsupported)
+
+    def helper_stmt(n, env, trace):
+        """`f(...);`, `x = f(...);`, `T x = f(...);`, `return f(...)` is left to the base - with f a
+        repository function: -> generator of (status, env) or None."""
+        x = strip(n)
+        target = None
+        call = None
+        if x.get('kind') == 'CallExpr':
+            call = x
+        elif x.get('kind') == 'BinaryOperator' and x.get('opcode') == '=':
+            c = children(x)
+            r = strip(c[1], explicit=True)
+            l = strip(c[0])
+            if r.get('kind') == 'CallExpr' and l.get('kind') in ('DeclRefExpr', 'MemberExpr'):
+                call, target = r, l
+        elif n.get('kind') == 'DeclStmt':
+            ds = [d for d in children(n) if d.get('kind') == 'VarDecl']
+            if len(ds) == 1 and len(children(n)) == 1:
+                init = [y for y in children(ds[0]) if not y['kind'].endswith('Attr')]
+                r = strip(init[-1], explicit=True) if init else {}
+                if r.get('kind') == 'CallExpr':
+                    call, target = r, ds[0]
+        if call is None:
+            return None
+        g = repo_helper(call)
+        if g is None:
+            return None
+        body = [y for y in children(g.body) if not y.get('kind', '').endswith('Comment')]
+        if len(body) == 1 and body[0].get('kind') == 'ReturnStmt' and \
+                not any(y.get('kind') == 'CallExpr' for y in walk(body[0])):
+            return None         # a pure one-line function: evaluated as a value by the base
+
+        def gen():
+            for st, e, v in call_helper(call, g, env, trace):
+                if st is not None:
+                    yield st, e
+                    continue
+                if target is not None:
+                    if v is None:
+                        v = UNKNOWN
+                    if target.get('kind') == 'VarDecl':
+                        e[target['id']] = v
+                    elif target.get('kind') == 'DeclRefExpr':
+                        e[target['referencedDecl']['id']] = v
+                    else:
+                        b = strip(children(target)[0]) if children(target) else {}
+                        if b.get('kind') == 'DeclRefExpr':
+                            e[('member', b['referencedDecl']['id'], target.get('name'))] = v
+                yield None, e
+        return gen()
+
     def exec2(n, env, trace):
         k = n.get('kind')
         x = strip(n)
+        hs = helper_stmt(n, env, trace)
+        if hs is not None:
+            for r in hs:
+                yield r
+            return
         if x.get('kind') == 'BinaryOperator' and x.get('opcode') == '=':
             c = children(x)
             l = strip(c[0])
@@ -630,20 +1039,44 @@ def _patch(ev, sid, code, more_output):
             ev.ev(x, env)
             yield None, env
             return
-        if k == 'DoStmt':
+        if k in ('DoStmt', 'WhileStmt', 'ForStmt'):
             # inner loop: one round, then its own condition is evaluated and recorded
             # (ev.inner_cond: would a second round follow?); the caller decides whether
-            # a further round is legitimate (progress) or a spin (no progress)
+            # a further round is legitimate (progress) or a spin (no progress).  A loop that
+            # tests first is entered only when its condition can hold; one without a condition
+            # (`for (;;)`, left by break) would always run again.
+            from ..feval import Choice
             c = children(n)
-            for st, e in base_exec(c[0], env, trace):
+            if k == 'DoStmt':
+                lbody, lcond, first = c[0], c[1], False
+            elif k == 'WhileStmt':
+                lcond, lbody, first = c[0], c[-1], True
+            else:
+                inner = n.get('inner', [])
+                inner = inner + [{}] * (5 - len(inner))
+                if inner[0].get('kind') or inner[1].get('kind') or inner[3].get('kind'):
+                    for r in base_exec(n, env, trace):
+                        yield r
+                    return
+                lcond, lbody, first = (inner[2] if inner[2].get('kind') else None), inner[4], True
+
+            def again(e):
+                if lcond is None:
+                    return True
+                v = ev.ev(lcond, e)
+                return True if (v is UNKNOWN or isinstance(v, Choice)) else bool(ev.truth(v))
+            if first and not again(env):
+                yield None, env
+                return
+            for st, e in base_exec(lbody, env, trace):
                 if st is not None and st.kind == 'break':
+                    yield None, e
+                elif st is not None and st.kind == 'continue':
+                    ev.inner_cond.append(again(e))
                     yield None, e
                 else:
                     if st is None:
-                        v = ev.ev(c[1], e)
-                        from ..feval import Choice
-                        ev.inner_cond.append(True if (v is UNKNOWN or isinstance(v, Choice))
-                                             else bool(ev.truth(v)))
+                        ev.inner_cond.append(again(e))
                     yield st, e
             return
         for r in base_exec(n, env, trace):
